@@ -84,10 +84,41 @@ static void do_rle(char *args)
 	free(src); free(dst);
 }
 
+/* ------------------------------------------------- page size (white box) */
+static const char *stname(kdump_status st);
+
+/* "S ps <v>": set arch.page_size on a fresh context through the public API */
+static void do_sizes(char *args)
+{
+	char *save = NULL;
+	char *what = strtok_r(args, " ", &save);
+	char *sv = strtok_r(NULL, " ", &save);
+	kdump_ctx_t *ctx;
+	kdump_attr_t a;
+	kdump_status st;
+	kdump_num_t ps = 0, shift = 0;
+
+	if (!what || !sv || strcmp(what, "ps")) { printf("SKIP\n"); return; }
+	ctx = kdump_new();
+	if (!ctx) { printf("S new=NULL\n"); return; }
+	a.type = KDUMP_NUMBER;
+	a.val.number = hx(sv);
+	st = kdump_set_attr(ctx, KDUMP_ATTR_PAGE_SIZE, &a);
+	if (st != KDUMP_OK)
+		printf("S %s\n", stname(st));
+	else {
+		kdump_get_number_attr(ctx, KDUMP_ATTR_PAGE_SIZE, &ps);
+		kdump_get_number_attr(ctx, KDUMP_ATTR_PAGE_SHIFT, &shift);
+		printf("S ok %llx %llx\n", (unsigned long long)ps, (unsigned long long)shift);
+	}
+	kdump_free(ctx);
+}
+
 /* ----------------------------------------------------------- file cases */
 static int out_fd = 1;
 static const char *cur_step = "start";
 static unsigned call_limit = 5;
+static int use_alarm = 1;	/* the libFuzzer harness relies on -timeout instead */
 
 static void emit(const char *fmt, ...)
 {
@@ -112,7 +143,8 @@ static void on_alarm(int sig)
 static void step(const char *name)
 {
 	cur_step = name;
-	alarm(call_limit);
+	if (use_alarm)
+		alarm(call_limit);
 }
 
 static const char *stname(kdump_status st)
@@ -278,9 +310,11 @@ static int child_main(int nfiles, int *fds, int mmap_on, unsigned npages)
 	char path[520];
 	struct sigaction sa;
 
-	memset(&sa, 0, sizeof sa);
-	sa.sa_handler = on_alarm;
-	sigaction(SIGALRM, &sa, NULL);
+	if (use_alarm) {
+		memset(&sa, 0, sizeof sa);
+		sa.sa_handler = on_alarm;
+		sigaction(SIGALRM, &sa, NULL);
+	}
 
 	step("new");
 	ctx = kdump_new();
@@ -352,7 +386,8 @@ static int child_main(int nfiles, int *fds, int mmap_on, unsigned npages)
 	}
 	step("free");
 	kdump_free(ctx);
-	alarm(0);
+	if (use_alarm)
+		alarm(0);
 	emit(" free=ok");
 	return 0;
 }
@@ -553,6 +588,8 @@ int main(int argc, char **argv)
 			do_rle(line + 2);
 		else if (line[0] == 'F' && line[1] == ' ')
 			do_file(line + 2);
+		else if (line[0] == 'S' && line[1] == ' ')
+			do_sizes(line + 2);
 		else
 			printf("SKIP\n");
 	}
